@@ -390,7 +390,11 @@ static void part4()
         mb.fixed[j] = ma.fixed[j];
         mc.fixed[j] = ma.fixed[j];
     }
+#ifdef INDEP_FIXED  // the second vector has fixed sizes of its own (0 vs. non-zero: one side's memcmp run may be empty)
+    Vec vb = build<Vec>(mb, 0, KV, 2, true);
+#else
     Vec vb = build<Vec>(mb, 0, KV, 2, false);
+#endif
     Vec vc = build<Vec>(mc, 0, 1, 3, false);
     const Vec& a = va;
     const Vec& b = vb;
@@ -400,6 +404,14 @@ static void part4()
     {
         const auto la = a.data_end() - a.data_begin(), lb = b.data_end() - b.data_begin(), lc = c.data_end() - c.data_begin();
         verif_assume((ma.n == mb.n || la != lb) && (mb.n == mc.n || lb != lc) && (ma.n == mc.n || la != lc));
+#ifdef INDEP_FIXED
+        bool fixed_equal = true;
+        for (usize j = 0; j < LT::N; ++j)
+        {
+            fixed_equal = fixed_equal && ma.fixed[j] == mb.fixed[j];
+        }
+        verif_assume(fixed_equal || (la != lb && lb != lc));
+#endif
     }
 #endif
 #ifdef KF_LT_PARTIAL
